@@ -4,7 +4,7 @@ cryptography.*, twisted.*"""
 import types
 
 from .. import loader
-from . import struct_m, io_m, env_m, crypto_m, stubs_m, path_m, json_m, collections_m
+from . import struct_m, io_m, env_m, crypto_m, stubs_m, path_m, json_m, collections_m, urllib_m
 
 loader.MODELS['struct'] = struct_m.module
 loader.MODELS['io'] = io_m.module
@@ -21,6 +21,8 @@ loader.MODELS['logging'] = stubs_m.logging_module
 loader.MODELS['logging.handlers'] = stubs_m.logging_module.handlers
 loader.MODELS['signal'] = stubs_m.signal_module
 loader.MODELS['collections'] = collections_m.module
+loader.MODELS['urllib'] = urllib_m.top
+loader.MODELS['urllib.parse'] = urllib_m.module
 loader.MODELS['collections.abc'] = collections_m.module.abc
 for _name, _mod in crypto_m.modules.items():
     loader.MODELS[_name] = _mod
